@@ -19,6 +19,7 @@ import (
 	"github.com/notaryproject/notation-go"
 	vr "github.com/notaryproject/notation-go/internal/zzvr"
 	"github.com/notaryproject/notation-go/plugin"
+	pluginframework "github.com/notaryproject/notation-plugin-framework-go/plugin"
 	"github.com/notaryproject/notation-go/verifier/trustpolicy"
 	"github.com/opencontainers/go-digest"
 	ocispec "github.com/opencontainers/image-spec/specs-go/v1"
@@ -174,6 +175,24 @@ func c12Verifier(contentFamily bool) {
 			p := &kitPlugin{}
 			p.meta.Name, p.meta.Version = "foo", "1.0.0"
 			p.metaErr = vr.Choice("pluginMetadataError", 2) == 1
+			if !p.metaErr && contentFamily {
+				// a plugin that has something to verify and answers in unusual ways
+				p.meta.Capabilities = []pluginframework.Capability{pluginframework.CapabilityTrustedIdentityVerifier, pluginframework.CapabilityRevocationCheckVerifier}
+				switch 1 + vr.Choice("pluginAnswer", 4) {
+				case 1:
+					p.verifyErr = true
+				case 2:
+					// an empty response (a nil response without error is outside the collaborator contract, DESIGN 4.6:
+					// the CLI plugin always returns a response object)
+					p.response = &pluginframework.VerifySignatureResponse{}
+				case 3: // verdicts present but null
+					p.response = &pluginframework.VerifySignatureResponse{VerificationResults: map[pluginframework.Capability]*pluginframework.VerificationResult{
+						pluginframework.CapabilityTrustedIdentityVerifier: nil, pluginframework.CapabilityRevocationCheckVerifier: nil}, ProcessedAttributes: []interface{}{nil, 7}}
+				default:
+					p.response = &pluginframework.VerifySignatureResponse{VerificationResults: map[pluginframework.Capability]*pluginframework.VerificationResult{
+						pluginframework.CapabilityTrustedIdentityVerifier: {Success: true}, pluginframework.CapabilityRevocationCheckVerifier: {Success: false}}}
+				}
+			}
 			mgr.plugins["foo"] = p
 		}
 		opts.PluginManager = mgr
